@@ -148,6 +148,9 @@ typedef struct {
     unsigned short c0, c1, cl;  /* first, second, last code unit (meaningful when len >= 1 / >= 2 / >= 1) */
     int tail;               /* length of the trailing run of U+200B */
     int wpos;               /* position of the witness character, -1: not in this string */
+#ifdef QS_GRAMMAR
+    int src, off;           /* provenance (C12 grammar unit): src != 0: this text is the slice [off, off + len) of the text with identity src */
+#endif
 } QString;
 typedef struct { int len; int id; } QLatin1String;
 extern QString g_val; extern int g_val_kind, g_val_src;     /* ghost (C12): the last VALUE obtained from Qt and its source, see QS_VALUE_HOOK */
@@ -155,7 +158,11 @@ extern QString g_val; extern int g_val_kind, g_val_src;     /* ghost (C12): the 
 #ifdef LEN_LIGHT
 /* light variant (units that need lengths only): no exact content at all */
 #define QS_CONTENT(x)
+#ifdef QS_GRAMMAR
+#define QSTRING_VALID(s) ((s).len >= 0 && (s).len <= LEN_MAX && (s).off >= 0 && (s).off <= LEN_MAX - (s).len && ((s).len != 0 || (s).id == 0))
+#else
 #define QSTRING_VALID(s) ((s).len >= 0 && (s).len <= LEN_MAX)
+#endif
 #else
 #define QS_CONTENT(x) x
 #define QSTRING_VALID(s) ((s).len >= 0 && (s).len <= LEN_MAX && (s).tail >= 0 && (s).tail <= (s).len && (s).wpos >= -1 && (s).wpos < (s).len \
@@ -186,7 +193,29 @@ static inline QString qs_value(int lo, int hi)
 #define QSTRING_IS_VALUE(s) (QSTRING_VALID(s) && (s).wpos == (g_src_wpos >= 0 && g_src_wpos < (s).len ? g_src_wpos : -1))
 #endif
 
-static inline QString QString_ctor(void) { QString s; s.len = 0; s.id = 0; s.c0 = 0; s.c1 = 0; s.cl = 0; s.tail = 0; s.wpos = -1; return s; }
+#ifdef QS_GRAMMAR
+/* C12 grammar unit: texts as SLICES of a root text.  A slice is normalised to (root identity, absolute offset, length) whatever chain of
+ * mid/left/right/chop produced it; its content identity is mid_id(root, off, len) (0 for the empty text); what the code can learn about
+ * the root's content are values of uninterpreted functions of (root, absolute position): a code unit, the first / last occurrence of a
+ * character, the longest documented keyword the text starts with.  The contracts name the same functions. */
+#define QS_G(x) x
+int __CPROVER_uninterpreted_mid_id(int id, int pos, int n);
+unsigned short __CPROVER_uninterpreted_unit(int root, int abs);
+int __CPROVER_uninterpreted_first(int root, unsigned short ch, int absfrom);             /* first position >= absfrom of ch in root, or -1 */
+int __CPROVER_uninterpreted_last(int root, unsigned short ch, int abslo, int abshi);     /* last position of ch in [abslo, abshi) of root, or -1 */
+int __CPROVER_uninterpreted_kw(int root, int abs);                                       /* the longest documented keyword root[abs..] starts with (its literal identity), or 0 */
+BOOL __CPROVER_uninterpreted_starts_other(int root, int abs, int lit);                   /* for a literal that is not a documented keyword */
+int __CPROVER_uninterpreted_trim(int id);
+int __CPROVER_uninterpreted_cat(int id, unsigned short ch);
+#define QS_ROOT(s) ((s).src != 0 ? (s).src : (s).id)
+#define QS_OFF(s) ((s).src != 0 ? (s).off : 0)
+#define QS_SLICE_FIX(r, s, p) { (r).src = QS_ROOT(s); (r).off = QS_OFF(s) + (p); (r).id = __CPROVER_uninterpreted_mid_id((r).src, (r).off, (r).len); \
+                                if ((r).len == 0) { (r).src = 0; (r).off = 0; (r).id = 0; } }
+#else
+#define QS_G(x)
+#define QS_SLICE_FIX(r, s, p)
+#endif
+static inline QString QString_ctor(void) { QString s; s.len = 0; s.id = 0; s.c0 = 0; s.c1 = 0; s.cl = 0; s.tail = 0; s.wpos = -1; QS_G(s.src = 0; s.off = 0;) return s; }
 /* a string literal of the source: its text is fixed (identity = the literal), it contains neither U+200B nor the witness */
 static inline QString QString_literal(int id, int len)
 { QString s = nondet_QString(); __CPROVER_assume(s.len == len && s.id == id && QSTRING_VALID(s)); QS_CONTENT(__CPROVER_assume(s.wpos == -1 && s.tail == 0);) return s; }
@@ -204,6 +233,7 @@ static inline void QString_squeeze(QString *s) { }
 static inline unsigned short qs_unit(QString s, int i)
 {
     unsigned short u = nondet_ushort();
+    QS_G(u = __CPROVER_uninterpreted_unit(QS_ROOT(s), QS_OFF(s) + i);)
 #ifndef LEN_LIGHT
     if (i == 0) u = s.c0; else if (i == 1) u = s.c1; else if (i == s.len - 1) u = s.cl; else if (i == s.wpos) u = g_wch;
     else if (i >= s.len - s.tail) u = MARK;
@@ -230,6 +260,7 @@ static inline QString qs_drop_last(QString s, int n)
     QS_CONTENT(__CPROVER_assume(r.wpos == (s.wpos < L ? s.wpos : -1));
     __CPROVER_assume(L < 1 || r.c0 == s.c0); __CPROVER_assume(L < 2 || r.c1 == s.c1);
     __CPROVER_assume(n > s.tail || r.tail == s.tail - n);)        /* still inside the trailing run: the rest of the run remains */
+    QS_SLICE_FIX(r, s, 0)
     return r;
 }
 /* s with its first n (1 <= n <= len) code units removed */
@@ -242,6 +273,7 @@ static inline QString qs_drop_first(QString s, int n)
     __CPROVER_assume(L < 1 || r.cl == s.cl);
     __CPROVER_assume(n != 1 || L < 1 || r.c0 == s.c1);
     __CPROVER_assume(r.tail == (s.tail <= L ? s.tail : L));)
+    QS_SLICE_FIX(r, s, n)
     return r;
 }
 /* per-proof obligation hooks (C12): what may be REMOVED from a buffer */
@@ -269,6 +301,7 @@ static inline QString QString_mid__int_int(QString s, int pos, int n)
     if (p > 0) r = qs_drop_first(r, p);
     if (r.len > L) r = qs_drop_last(r, r.len - L);
     r.id = __CPROVER_uninterpreted_mid_id(s.id, p, L);
+    QS_SLICE_FIX(r, s, p)
     return r;
 }
 static inline QString QString_mid__int(QString s, int pos) { return QString_mid__int_int(s, pos, -1); }
@@ -287,9 +320,15 @@ static inline QString qs_concat(QString a, QString b)
     __CPROVER_assume(r.wpos == (a.wpos >= 0 ? a.wpos : (b.wpos >= 0 ? a.len + b.wpos : -1)));)
     return r;
 }
-static inline QString qs_char(QChar c) { QString s; s.len = 1; s.id = 0; s.c0 = c.u; s.c1 = 0; s.cl = c.u; s.tail = c.u == MARK ? 1 : 0; s.wpos = -1; return s; }
+static inline QString qs_char(QChar c) { QString s; s.len = 1; s.id = 0; s.c0 = c.u; s.c1 = 0; s.cl = c.u; s.tail = c.u == MARK ? 1 : 0; s.wpos = -1; QS_G(s.src = 0; s.off = 0;) return s; }
 static inline QString *QString_append__QString(QString *s, QString o) { *s = qs_concat(*s, o); return s; }
+#ifdef QS_GRAMMAR
+/* text ++ one code unit: the identity of the result is a function of the identity of the text and of that unit */
+static inline QString *QString_append__QChar(QString *s, QChar c)
+{ int old = s->len == 0 ? 0 : s->id; *s = qs_concat(*s, qs_char(c)); s->id = __CPROVER_uninterpreted_cat(old, c.u); s->src = 0; s->off = 0; return s; }
+#else
 static inline QString *QString_append__QChar(QString *s, QChar c) { *s = qs_concat(*s, qs_char(c)); return s; }
+#endif
 static inline QString *QString_op_addassign__QString(QString *s, QString o) { *s = qs_concat(*s, o); return s; }
 static inline QString *QString_op_addassign__QChar(QString *s, QChar c) { *s = qs_concat(*s, qs_char(c)); return s; }
 static inline QString *QString_op_addassign__QLatin1Char(QString *s, QLatin1Char c) { *s = qs_concat(*s, qs_char(QChar_ctor__QLatin1Char(c))); return s; }
@@ -301,7 +340,7 @@ static inline QString QString_ctor__int_QChar(int n, QChar ch)
 {
     if (n <= 0) return QString_ctor();
     __CPROVER_assume(n <= LEN_MAX);                     /* A-alloc */
-    QString s; s.len = n; s.id = 0; s.c0 = ch.u; s.c1 = ch.u; s.cl = ch.u; s.tail = ch.u == MARK ? n : 0; s.wpos = -1; return s;
+    QString s; s.len = n; s.id = 0; s.c0 = ch.u; s.c1 = ch.u; s.cl = ch.u; s.tail = ch.u == MARK ? n : 0; s.wpos = -1; QS_G(s.src = 0; s.off = 0;) return s;
 }
 /* text that comes from OUTSIDE the formatter (a VALUE): any content, may carry the witness */
 static inline QString QString_ctor__cstr(cstr c) { QString s = qs_value(0, c.isnull ? 0 : c.len); QS_VALUE_HOOK(s, SRC_CSTR, c.id) return s; }                  /* fromUtf8: at most one unit per byte */
@@ -312,7 +351,8 @@ static inline QString QString_fromUtf8__QByteArray(QByteArray b) { return qs_val
 static inline QString QString_number__int(int n) { QString s = qs_value(1, 11); QS_VALUE_HOOK(s, SRC_NUMBER, n) return s; }
 static inline QString QString_number__unsignedlonglong_int(unsigned long long n, int base) { return qs_value(1, 64); }
 static inline QString QString_number__double_char_int(double d, char f, int prec) { return qs_value(1, 400); }
-static inline QString QString_trimmed(QString *s) { QString r = nondet_QString(); __CPROVER_assume(r.len >= 0 && r.len <= s->len && QSTRING_VALID(r)); QS_CONTENT(__CPROVER_assume(r.wpos == -1);) return r; }
+static inline QString QString_trimmed(QString *s) { QString r = nondet_QString(); __CPROVER_assume(r.len >= 0 && r.len <= s->len && QSTRING_VALID(r)); QS_CONTENT(__CPROVER_assume(r.wpos == -1);)
+  QS_G(r.src = 0; r.off = 0; r.id = __CPROVER_uninterpreted_trim(s->id); if (r.len == 0) r.id = 0;) return r; }
 
 /* searches */
 #ifdef LEN_LIGHT
@@ -323,10 +363,20 @@ static inline BOOL QString_endsWith__QChar(QString s, QChar c) { return s.len > 
 static inline BOOL QString_startsWith__QChar(QString s, QChar c) { return s.len > 0 && s.c0 == c.u; }
 #endif
 static inline BOOL QString_startsWith__QString(QString s, QString p) { BOOL r = nondet_int() != 0; __CPROVER_assume(!r || s.len >= p.len); if (p.len == 0) r = 1; return r; }
+#ifdef QS_GRAMMAR
+/* does root[abs..] start with the literal?  QS_KW_PREFIX (given by the unit) is the static prefix table of the documented keywords */
+#define QS_KWSTARTS(root, abs, lit) (QS_KW_KNOWN(lit) ? QS_KW_PREFIX(__CPROVER_uninterpreted_kw(root, abs), lit) : (__CPROVER_uninterpreted_starts_other(root, abs, lit) != 0))
+static inline BOOL QString_startsWith__QLatin1String(QString s, QLatin1String p) { if (p.len == 0) return 1; if (s.len < p.len) return 0; return QS_KWSTARTS(QS_ROOT(s), QS_OFF(s), p.id); }
+#else
 static inline BOOL QString_startsWith__QLatin1String(QString s, QLatin1String p) { BOOL r = nondet_int() != 0; __CPROVER_assume(!r || s.len >= p.len); if (p.len == 0) r = 1; return r; }
+#endif
 static inline BOOL QString_endsWith__QString(QString s, QString p) { BOOL r = nondet_int() != 0; __CPROVER_assume(!r || s.len >= p.len); if (p.len == 0) r = 1; return r; }
 BOOL __CPROVER_uninterpreted_str_eq_lit(int sid, int lit);
+#ifdef QS_GRAMMAR
+static inline BOOL QString_op_eq__QLatin1String(QString s, QLatin1String l) { if (s.len != l.len) return 0; if (s.len == 0) return 1; return QS_KWSTARTS(QS_ROOT(s), QS_OFF(s), l.id); }
+#else
 static inline BOOL QString_op_eq__QLatin1String(QString s, QLatin1String l) { if (s.len != l.len) return 0; if (s.len == 0) return 1; return __CPROVER_uninterpreted_str_eq_lit(s.id, l.id) != 0; }
+#endif
 static inline BOOL op_eq__QString_QString(QString a, QString b) { if (a.len != b.len) return 0; if (a.len == 0) return 1; BOOL r = nondet_int() != 0; if (a.id == b.id && a.id != 0) r = 1; return r; }
 /* contains / indexOf of a character: exact where the model knows the content (the strings parseFormatSpec looks at), arbitrary elsewhere */
 #ifndef QS_LITERAL_CONTAINS
@@ -345,10 +395,35 @@ static inline BOOL QString_contains__QChar(QString s, QChar c)
     QS_LITERAL_CONTAINS(s, c, r)
     return r;
 }
+#ifdef QS_GRAMMAR
+/* first occurrence of c at or after from: a function of (root, c, absolute start); an occurrence beyond the end of the slice does not count */
+static inline int QString_indexOf__QChar_int(QString s, QChar c, int from)
+{
+    if (from < 0) { from = (from < -s.len) ? 0 : from + s.len; }
+    if (from >= s.len) return -1;
+    int a = __CPROVER_uninterpreted_first(QS_ROOT(s), c.u, QS_OFF(s) + from);
+    __CPROVER_assume(a == -1 || a >= QS_OFF(s) + from);
+    if (a == -1 || a >= QS_OFF(s) + s.len) return -1;
+    return a - QS_OFF(s);
+}
+static inline int QString_indexOf__QChar(QString s, QChar c) { return QString_indexOf__QChar_int(s, c, 0); }
+/* last occurrence of c that starts at or before from (-1: anywhere): a function of (root, c, absolute range) */
+static inline int QString_lastIndexOf__QChar_int(QString s, QChar c, int from)
+{
+    int lim = from < 0 ? (from < -s.len ? -1 : from + s.len) : from;
+    if (lim >= s.len) lim = s.len - 1;
+    if (lim < 0) return -1;
+    int a = __CPROVER_uninterpreted_last(QS_ROOT(s), c.u, QS_OFF(s), QS_OFF(s) + lim + 1);
+    __CPROVER_assume(a == -1 || (a >= QS_OFF(s) && a <= QS_OFF(s) + lim));
+    return a == -1 ? -1 : a - QS_OFF(s);
+}
+static inline int QString_lastIndexOf__QChar(QString s, QChar c) { return QString_lastIndexOf__QChar_int(s, c, -1); }
+#else
 static inline int QString_indexOf__QChar(QString s, QChar c) { return qt_index_of(s.len, 1, 0); }
 static inline int QString_indexOf__QChar_int(QString s, QChar c, int from) { return qt_index_of(s.len, 1, from); }
 static inline int QString_lastIndexOf__QChar(QString s, QChar c) { return qt_last_index_of(s.len, 1, -1); }
 static inline int QString_lastIndexOf__QChar_int(QString s, QChar c, int from) { return qt_last_index_of(s.len, 1, from); }
+#endif
 static inline int QString_indexOf__QString(QString s, QString p) { return qt_index_of(s.len, p.len, 0); }
 /* remove(ch): every occurrence of ch; what is left of the witness: it stays unless it IS that character */
 static inline QString *QString_remove__QChar(QString *s, QChar c)
